@@ -1,11 +1,15 @@
 // C15 implementation driver: the real tokenizer, expressionParser and printers.
 // One case per stdin line, one "R ..." line per case (same syntax as extract/C15/driver.ml):
 //   E <hex> ...   expression source: tokenize, expressionParser::parse, dump the tree, print it with
-//                 exprNode::toString(), parse the printed text again, dump:  R E <tree>|<printed hex>|<tree2>
+//   F <hex> ...   exprNode::toString(), parse the printed text again, dump; then the C12 token observation of
+//                 the source and of the printed text:  R E <tree>|<printed hex>|<tree2>|<tokens>|<tokens2>
+//                 (E and F differ only in what the specification side requires)
 // tree dump: I<hex> identifier, P<hex> primitive (source text), S<hex> string, C<hex> char,
 //   L<symhex>.<b1>.<b2>(e) left unary, R<symhex>.<b1>.<b2>(e) right unary, B<symhex>.<b1>.<b2>(l,r) binary,
 //   G(e) parentheses, F(f;a;b...) call, X(a,i) subscript, T(c,a,b) ternary, N empty, Z<type>(<printed hex>) others,
 //   ERR when the parser reports an error (returns NULL).
+//   P <hex> ...   a program: parser_t::parseSource, statement dump, toString(), parse that, dump, toString():
+//                 R P <statements>|<printed hex>|<statements2>|<printed2 hex>
 #include <cstdlib>
 #include <cstring>
 #include <iostream>
@@ -14,6 +18,8 @@
 #include <vector>
 
 #include <occa/internal/lang/expr.hpp>
+#include <occa/internal/lang/parser.hpp>
+#include <occa/internal/lang/statement.hpp>
 #include <occa/internal/lang/tokenizer.hpp>
 #include <occa/internal/lang/token.hpp>
 
@@ -85,6 +91,39 @@ static void dump(std::ostream &o, const exprNode *e) {
   }
 }
 
+// C12's token observation (kind, value, encoding, suffix), without newlines and comments
+static std::string showToken(token_t *t) {
+  const int ty = t->type();
+  std::ostringstream o;
+  if (ty == tokenType::identifier)      { o << "I" << hex(t->to<identifierToken>().value); }
+  else if (ty == tokenType::primitive)  { o << "P" << hex(t->to<primitiveToken>().strValue); }
+  else if (ty == tokenType::op)         { o << "O" << hex(t->to<operatorToken>().op->str); }
+  else if (ty == tokenType::char_) {
+    charToken &c = t->to<charToken>();
+    o << "C" << c.encoding << "." << hex(c.value) << "." << hex(c.udf);
+  }
+  else if (ty == tokenType::string) {
+    stringToken &s = t->to<stringToken>();
+    o << "S" << s.encoding << "." << hex(s.value) << "." << hex(s.udf);
+  }
+  else if (ty == tokenType::unknown)    { o << "U" << hex(std::string(1, t->origin.position.start[0])); }
+  else { o << "X" << ty; }
+  return o.str();
+}
+
+static std::string tokenDump(const std::string &src) {
+  tokenVector tokens = tokenizer_t::tokenize(src);
+  std::string s;
+  for (token_t *t : tokens) {
+    if (!(t->type() & (tokenType::newline | tokenType::comment))) {
+      if (s.size()) s += ",";
+      s += showToken(t);
+    }
+  }
+  freeTokenVector(tokens);
+  return s;
+}
+
 static exprNode* parseSource(const std::string &src) {
   tokenVector tokens = tokenizer_t::tokenize(src);
   // statements hand the expression parser their tokens without newlines
@@ -95,6 +134,39 @@ static exprNode* parseSource(const std::string &src) {
   return expressionParser::parse(kept);
 }
 
+// statement tree: <type>{children} for block statements, <type>:<printed hex> for the others
+static void dumpStatement(std::ostream &o, statement_t &s) {
+  o << s.type();
+  if (s.is<blockStatement>()) {
+    blockStatement &b = s.to<blockStatement>();
+    o << "{";
+    for (int i = 0; i < b.children.length(); ++i) {
+      if (i) o << ",";
+      dumpStatement(o, *b.children[i]);
+    }
+    o << "}";
+  } else {
+    o << ":" << hex(s.toString());
+  }
+}
+
+// P: parse a program with parser_t, print it, parse the printed program, print again
+static std::string programCase(const std::string &src) {
+  std::ostringstream out;
+  parser_t p1;
+  p1.parseSource(src);
+  if (!p1.success) return "ERR";
+  const std::string printed = p1.toString();
+  dumpStatement(out, p1.root);
+  out << "|" << hex(printed) << "|";
+  parser_t p2;
+  p2.parseSource(printed);
+  if (!p2.success) { out << "ERR|"; return out.str(); }
+  dumpStatement(out, p2.root);
+  out << "|" << hex(p2.toString());
+  return out.str();
+}
+
 int main() {
   std::string line;
   while (std::getline(std::cin, line)) {
@@ -103,20 +175,28 @@ int main() {
     ss >> kind;
     while (ss >> tok) h += tok;
     std::ostringstream out;
-    if (kind == "E") {
-      const std::string src = unhex(h);
-      exprNode *e = parseSource(std::string(src.c_str()));
-      out << "E ";
+    if (kind == "E" || kind == "F") {
+      const std::string raw = unhex(h);
+      const std::string src(raw.c_str());     // C string: cut at the first NUL; stays alive while e is used
+      exprNode *e = parseSource(src);
+      out << kind << " ";
       if (!e) {
         out << "ERR";
+      } else if (e->type() & exprNodeType::pair) {
+        out << "PAIR";                        // an unclosed bracket: pairNode::print only reports an error
+        delete e;
       } else {
         dump(out, e);
         const std::string printed = e->toString();
         out << "|" << hex(printed) << "|";
         exprNode *e2 = parseSource(printed);
         if (!e2) { out << "ERR"; } else { dump(out, e2); delete e2; }
+        out << "|" << tokenDump(src) << "|" << tokenDump(printed);
         delete e;
       }
+    } else if (kind == "P") {
+      const std::string raw = unhex(h);
+      out << "P " << programCase(std::string(raw.c_str()));
     } else {
       out << "BADCASE";
     }
